@@ -355,7 +355,7 @@ def run(ctx: common.Ctx):
         for k in range(6 if quick else 80):
             jobs.append((op, ds[k % len(ds)], ctx.seed * 389 + k))
     res = tables.pmap(worker, jobs, chunk=6)
-    for job, r in zip(jobs, res):
+    for job, r in tables.pairs(ctx, jobs, res):
         if isinstance(r, tables.Crashed):
             ctx.violation(f"{job[0]}/{job[1]}/interpreter-crash", f"{job}: worker died", {"job": repr(job)}); continue
         if r.get("skip"):
